@@ -22,6 +22,10 @@ UNUSED = [
     "parameters(a=1.0, unused=2.0)\nstates(x=1.0)\ndx_dt = -a*x*t\n",
     "parameters(a=1.0)\nstates(x=1.0, y=2.0)\nlin = a*y\ndx_dt = lin - x\ndy_dt = -lin*y\nmon = x*y\n",
 ]
+UNUSED += [
+    "parameters(g=9.81, c=0.1)\nstates(h=0.0, v=1.0)\ndh_dt = v\ndv_dt = -g - c*v*abs(v)\n",
+    "parameters(a=1.0, b=2.0, k=0.5)\nstates(x=1.0, y=0.5)\ntau = a + b*x\nalpha = 1/tau\nzeta = alpha*2\nbeta = zeta + y\ndx_dt = -k*x*alpha\ndy_dt = -beta*y\nmon_unused = tau*beta\n",
+]
 SCHEMES = ["explicit_euler", "generalized_rush_larsen", "hybrid_rush_larsen"]
 
 
